@@ -23,7 +23,7 @@ tvars == <<prog, pv, stage, ep, doc, dec, ran, res, origin, l, fx>>
 
 B == INSTANCE BuilderOps
 NoFx == [via |-> "", env |-> <<>>, docj |-> <<>>, method |-> "", part |-> "", lastpv |-> <<>>, lastsv |-> "", lastdoc |-> <<>>, lastdec |-> NoDec, remote |-> <<>>,
-         bld |-> B!NoBuilder, lasttag |-> 0]
+         bld |-> B!NoBuilder, lasttag |-> 0, qlists |-> <<>>]
 
 ProgIx(id) == CHOOSE i \in 1..Len(Progs) : Progs[i].id = id
 PartIx(q, pid) == CHOOSE i \in 1..Len(q.parts) : q.parts[i].id = pid
@@ -63,7 +63,9 @@ TrLists ==
     /\ Chk("BIND", "lists_part_exists", l, HasPart(P, E.part))
     /\ Chk("C05", "published_list_is_sorted_set_of_serialised_names", l,
            E.listed = P.parts[PartIx(P, E.part)].lists[E.kind])
-    /\ UNCHANGED <<prog, pv, stage, ep, doc, dec, ran, res, origin, fx>>
+    \* the observed query names of every part are remembered: the response table must be keyed by the names a client can send (C16)
+    /\ fx' = IF E.kind = "query" THEN [fx EXCEPT !.qlists = (E.part :> E.listed) @@ @] ELSE fx
+    /\ UNCHANGED <<prog, pv, stage, ep, doc, dec, ran, res, origin>>
 
 (* ---- a message value built by the program, encoded and decoded -------- *)
 MethodOf(q, pid, name) == CHOOSE m \in Range(q.parts[PartIx(q, pid)].methods) : m.name = name
@@ -74,7 +76,9 @@ TrEncode ==
            vals == [i \in 1..Len(E.args) |-> E.args[i].json]
        IN /\ Chk("BIND", "encode_args_are_the_methods", l, [i \in 1..Len(E.args) |-> E.args[i].n] = ArgNames(m))
           /\ Chk("C01", "json_is_name_keyed_object_of_own_argument_encodings", l, IsMsgJsonE(E.json, m, vals))
-          /\ Chk("C01", "parsing_own_json_gives_equal_message", l, E.roundtrip)
+          \* (a handler whose message is written under one name and read under another -- forwarded `rename(serialize = ..)` -- does not
+          \*  read back what it writes: the user's own choice)
+          /\ Chk("C01", "parsing_own_json_gives_equal_message", l, m.ser = m.wire => E.roundtrip)
           /\ Chk("C01", "parsing_the_specifications_document_gives_equal_message", l, E.spec_doc_eq)
     /\ UNCHANGED <<prog, pv, stage, ep, doc, dec, ran, res, origin, fx>>
 
@@ -263,6 +267,11 @@ TrSchemas ==
     /\ IsEvent("Schemas")
     /\ stage = "idle"
     /\ Chk("C16", "response_table_is_available", l, E.verdict = "ok")
+    \* the keys of the table are the names under which the queries can be sent (as the parts publish them), and no other
+    /\ LET names == {E.rows[i].name : i \in {j \in 1..Len(E.rows) : E.rows[j].name # "__phantom"}}
+           sendable == IF E.part = "contract" THEN UNION {Range(fx.qlists[p]) : p \in DOMAIN fx.qlists}
+                       ELSE IF E.part \in DOMAIN fx.qlists THEN Range(fx.qlists[E.part]) ELSE names
+       IN Chk("C16", "table_is_keyed_by_the_names_a_client_can_send", l, E.verdict = "ok" => names = sendable)
     /\ IF E.part = "contract"
        THEN /\ Chk("C16", "contract_table_is_the_union_of_its_parts_tables", l, RowSet(E) = EContractResponses(P))
             /\ Chk("C16", "every_query_appears_once", l, NRows(E) = Cardinality(EContractResponses(P)))
